@@ -219,13 +219,13 @@ def run(chk, facts):
     st = syn.structs.get("check::name::Name")
     ok = st is not None and any(n == "names" and t.replace(" ", "") == "HashSet<TrueName>" for n, t in st["fields"])
     chk.ob("R-C20-4", "Name.names:HashSet", ok, "the members of a union are a HashSet<TrueName> (no order, no duplicates)" if ok else "Name.names is no longer a HashSet<TrueName>")
-    try:
-        un = [f for f in syn.find_fn("union", mod="check::name", impl_of="Name") if "Union<Name>" in (f.get("impl_trait") or "").replace(" ", "")]
-        s = src(un[0]["body"]).replace(" ", "") if len(un) == 1 else ""
-        ok = "self.names.union(&name.names).cloned().collect()" in s
-        chk.ob("R-C20-4", "union=set-union", ok, "Name::union is the set union of the members" if ok else "Name::union is no longer the set union of both member sets", facts.loc_of(un[0]) if un else None)
-    except AnchorError as e:
-        chk.anchor_fail("R-C20-4", e)
+    # Name::union is the set union of the members (None next to other members makes them nullable): the fold of R-C06-3 over small unions
+    # states exactly that, with its branch-coverage obligation - shared, not restated on the text of the function
+    from . import c06 as _c06u
+    from .common import borrow as _borrow_u
+    kept_u = _borrow_u(chk, facts, _c06u, ("R-C06-3|union",), {"R-C06-3": "Name::union folded over small unions: the set union of the members, None absorbed into nullability (shared with C06)"})
+    chk.ob("R-C20-4", "union=set-union", len(kept_u) >= 2 and all(o_["ok"] for o_ in kept_u), "Name::union is the set union of the members (R-C06-3 union fold)" if kept_u and all(o_["ok"] for o_ in kept_u) else
+           "Name::union is no longer the set union of both member sets (see the R-C06-3 union obligations)")
     accumulators(chk, facts, "R-C20-5")
     chk.rule("R-C20-6", "no element is dropped before it is compared: every zip/take/skip in the checker is length-guarded or reviewed (shared census)")
     from .quant import truncation_census
